@@ -3,6 +3,10 @@
 //! A case is a (nested) type plus 2-3 literal values of it; one Sylt program prints the result of every operator
 //! the type checker admits for them; the printed lines must equal an independent structural model, and the
 //! observed booleans must satisfy the algebraic laws of an equivalence and of one total lexicographic order.
+//!
+//! Finding made by this check (fixed in /repo by e1172db, reproducer replays/C19/known/tuple-add-string-elements.json,
+//! signature `C19/tuple-add/string-elements`): `+` on tuples with string elements used raw Lua `+`.
+//! Dev switches: `C19_LAWS_ONLY=1` (booleans judged by the laws alone), `C19_SAVE_REJECTED=DIR`.
 #[path = "c19_model.rs"]
 mod model;
 #[path = "c19_gen.rs"]
@@ -39,8 +43,6 @@ pub struct Case {
     pub global: bool,
     /// operands are parenthesised literals instead of variables
     pub inline: bool,
-    /// avoidance switch for the known finding off: `+` is also applied to tuples with string elements
-    pub raw: bool,
     /// rendered program, for human readers of replay files (re-rendered on evaluation)
     #[serde(default)]
     pub source: String,
@@ -120,7 +122,6 @@ impl Case {
         let tys: Vec<Ty> = self.vals.iter().map(|v| vtype(v, &self.ty)).collect();
         let ms: Vec<M> = self.vals.iter().map(to_m).collect();
         let mut ops = Vec::new();
-        let mut deferred = Vec::new();
         for i in 0..n {
             for j in 0..n {
                 let same = tys[i] == tys[j];
@@ -143,12 +144,7 @@ impl Case {
             for j in 0..n {
                 let small = ints_small(&ms[i]) && ints_small(&ms[j]);
                 if small && adm_add(&tys[i], &tys[j]) {
-                    let trigger = matches!(tys[i], Ty::Tuple(_)) && tys[i].tuple_str_leaf();
-                    if !trigger {
-                        ops.push(Op { k: OpK::Add, i, j });
-                    } else if self.raw {
-                        deferred.push(Op { k: OpK::Add, i, j });
-                    }
+                    ops.push(Op { k: OpK::Add, i, j });
                 }
                 if small && adm_submul(&tys[i], &tys[j]) {
                     ops.push(Op { k: OpK::Sub, i, j });
@@ -167,8 +163,6 @@ impl Case {
                 ops.push(Op { k: OpK::Neg, i, j: 0 });
             }
         }
-        // the known-finding trigger goes last: a runtime error there hides nothing else
-        ops.extend(deferred);
         ops
     }
 
@@ -396,13 +390,6 @@ impl Check for C19 {
 
     fn generate(&self, u: &mut Unstructured, _tier: Tier) -> Option<Case> {
         let mut t = Tape::new(u);
-        // the avoidance switch of the known finding is off for 20 % of the budget
-        let mut raw = t.chance(1, 5);
-        match std::env::var("C19_RAW").ok().as_deref() {
-            Some("0") => raw = false,
-            Some("1") => raw = true,
-            _ => {}
-        }
         let profile = [Profile::Any, Profile::Ord, Profile::Arith][t.weighted(&[36, 32, 32])];
         let depth = 1 + t.weighted(&[30, 45, 25]);
         let mut g = G { t: &mut t, next_id: 0 };
@@ -425,7 +412,7 @@ impl Check for C19 {
         let annotate = g.t.chance(1, 3);
         let global = g.t.chance(1, 5);
         let inline = g.t.chance(1, 6);
-        Some(Case { ty, vals, divisor, annotate, global, inline, raw, source: String::new() }.with_source())
+        Some(Case { ty, vals, divisor, annotate, global, inline, source: String::new() }.with_source())
     }
 
     fn evaluate(&self, case: &Case, labels: &mut Labels) -> Verdict {
@@ -505,8 +492,8 @@ impl Check for C19 {
                 labels.add(format!("op:{}", op.k.name()));
             }
         }
-        if case.raw {
-            labels.add("raw");
+        if ops.iter().any(|o| o.k == OpK::Add && matches!(tys[o.i], Ty::Tuple(_)) && tys[o.i].tuple_str_leaf()) {
+            labels.add("op:add-on-tuple-with-strings");
         }
         if ops.is_empty() {
             return Verdict::Discard("no-operator-applies".into());
@@ -781,6 +768,7 @@ impl Check for C19 {
             ("op:lt", 0.3),
             ("op:le", 0.3),
             ("op:add", 0.15),
+            ("op:add-on-tuple-with-strings", 0.03),
             ("op:sub", 0.15),
             ("op:div", 0.10),
             ("op:div-by-number", 0.10),
@@ -831,7 +819,7 @@ fn admitted_matrix() -> (serde_json::Value, Vec<String>, Vec<String>) {
     let mut mismatches = Vec::new();
     let mut not_admitted = Vec::new();
     for (name, ty, x, y) in classes {
-        let case = Case { ty: ty.clone(), vals: vec![x.clone(), y.clone()], divisor: Val::Int(2), annotate: true, global: false, inline: false, raw: true, source: String::new() };
+        let case = Case { ty: ty.clone(), vals: vec![x.clone(), y.clone()], divisor: Val::Int(2), annotate: true, global: false, inline: false, source: String::new() };
         let predicted = case.ops(pr);
         let mut row = serde_json::Map::new();
         for k in all {
